@@ -42,7 +42,15 @@ reg("C03", "proof",
     "contracts; to_disp (NaN substitution/restoration, invalid pixels, frame) by the bounded stand-in until its contract is in.",
     trusted=["assumed contract: np.argmin/np.argmax return the first index of the extremum of a NaN-free axis",
              "assumed contract: np.array_split(a, np.arange(c, n, c), axis) yields the views a[j*c : min((j+1)*c, n)]"])
-for _pid in ["C01", "C02", "C04", "C05", "C07", "C08", "C09", "C10", "C12", "C13", "C14", "C15", "C16", "C17", "C18", "C19", "C20"]:
+reg("C14", "proof",
+    "occlusion/mismatch filling: find_valid_neighbors (first valid pixel along each of the 8 directions, every path loop "
+    "leaves through a break, all unchecked reads in bounds) and the kernels interpolate_occlusion_sgm, "
+    "interpolate_mismatch_sgm, interpolate_mismatch_mc_cnn proved pixel by pixel against the property (only flagged pixels "
+    "change; filled pixels trade bit 8->4 / 9->5 and receive a non-NaN value taken from / lying between valid "
+    "disparities; otherwise untouched); interpolate_occlusion_mc_cnn and the two drivers by the bounded stand-in.",
+    trusted=["assumed contracts: np.nanmedian (NaN iff all NaN, else between two non-NaN elements), np.argsort (a permutation), "
+             "np.sum over non-negative flags (0 iff all 0)"])
+for _pid in ["C01", "C02", "C04", "C05", "C07", "C08", "C09", "C10", "C12", "C13", "C15", "C16", "C17", "C18", "C19", "C20"]:
     reg(_pid, "other", BOUNDED_ONLY)
 
 FIX_COMMITS = ['c8eaaa2', '39f21c5', '00e445f', 'cea0f99', '62af5fc', 'd016e8e', 'a2233a1', '3bbb417', 'bdac312', '35f4fa5', 'bcaad45', '42d03b2', 'fd4d6b2', '756db6e', 'abbd602', 'a62df76']
